@@ -519,7 +519,7 @@ def mpat(*terms):
     return p
 
 
-_PAT_OPS = {z3.Z3_OP_SELECT, z3.Z3_OP_UNINTERPRETED, z3.Z3_OP_ADD, z3.Z3_OP_SUB, z3.Z3_OP_ANUM,
+_PAT_OPS = {z3.Z3_OP_SELECT, z3.Z3_OP_STORE, z3.Z3_OP_UNINTERPRETED, z3.Z3_OP_ADD, z3.Z3_OP_SUB, z3.Z3_OP_ANUM,
             z3.Z3_OP_SEQ_EXTRACT, z3.Z3_OP_SEQ_LENGTH, z3.Z3_OP_SEQ_AT, z3.Z3_OP_SEQ_NTH}
 
 
